@@ -85,7 +85,15 @@ fn atom(
 ) -> BoxedStrategy<Expr> {
     let op = move || {
         if with_ops {
-            op_strategy(32).boxed()
+            // bounds that are both above 32 apply to IPv6 members only: the IPv4 members of the
+            // set drop out (no IPv4 prefix is that long). A range that straddles 32 (^0-33) is
+            // not generated: RFC 2622 / RFC 4012 give it no meaning for the IPv4 members
+            prop_oneof![
+                6 => op_strategy(32),
+                1 => (33u8..=128).prop_map(Op::Exact),
+                1 => (33u8..=128, 33u8..=128).prop_map(|(a, b)| Op::Range(a.min(b), a.max(b))),
+            ]
+            .boxed()
         } else {
             Just(Op::None).boxed()
         }
